@@ -23,6 +23,11 @@ CHECKS = {
   text="Every skeleton combines generators, cuts, user balls sharing variables (incl. list balls), built-in errors and catch/3 goals that exit deterministically, with choice points, or are re-entered by backtracking; each is run uncaught, caught outside, inside findall, and with a throw after the catch has exited; the reference keeps catch frames as choice points with a trailed active flag. Exhaustive within the bounds.",
   note="Trusted: ref/solve's catch/throw semantics (self-checked against ISO 7.8.9 examples); only the formal part of error(Formal, Context) is compared.",
   design="DESIGN.md §3 C04"),
+ "C08": dict(
+  technique="bounded-exhaustive enumeration on the real interpreter against a reference standard order: all pairs of a term universe through compare/3 and the six comparison predicates, in-call comparison matrices checked for the order laws, all lists up to a length bound through sort/2, setof/3 and keysort/2 (plus all 2^13 long lists for stability), all pairs of list construction recipes",
+  text="Every ordered pair of the universe is compared through compare/3 and ==, \==, @<, @=<, @>, @>= and checked against the reference order; complete comparison matrices computed inside one call are checked for totality, antisymmetry, transitivity and '=' exactly for identical terms; every list up to the bound is sorted with sort/2, setof/3 and keysort/2 and compared with the reference (ascending, duplicate-free / stable); the same abstract list built through 13 constructor paths must compare '=' and sort alike.",
+  note="Trusted: ref/order as the property states the order. Results that hinge on the relative order of two distinct unbound variables are not asserted (inconclusive).",
+  design="DESIGN.md §3 C08"),
  "C09": dict(
   technique="explicit-state breadth-first search over database histories: every transition is one update/call executed on the real interpreter (history replayed on a fresh instance) and on a sequential reference database with call-time snapshots; states deduplicated by (model database, last operation) beyond an unmerged depth",
   text="From 6+4 initial databases, every history over an alphabet of 38+20 operations (asserta/assertz, retract first/all/by pattern, retractall incl. non-linear and aliased patterns, abolish, calls, and updates issued inside open calls, open clause/2 and open retract/1) is explored to depth 3 (quick) / 4 (thorough); after every transition the operation's answers and the complete listing of the predicates are compared with the reference. Reports states, transitions and depth.",
